@@ -148,7 +148,7 @@ package fox
 //@   ensures nolock: held[&fox.mu] == old(held[&fox.mu]) && lockOps[&fox.mu] == old(lockOps[&fox.mu]) && pubCount[&fox.tree] == old(pubCount[&fox.tree]) && published[&fox.tree] == old(published[&fox.tree])
 
 //@ -- a snapshot of a transaction is a read-only view: it can never publish or unlock
-//@ func (*Txn).Snapshot props C04,C03,C05
+//@ func (*Txn).Snapshot props C04,C03,C05,C06
 //@   requires txn != nil
 //@   modifies txn.rootTxn.writable, snapRef
 //@   ensures settled: txn.rootTxn == nil ==> result == nil
